@@ -6,6 +6,7 @@ import (
 	"errors"
 	"fmt"
 	"io"
+	"math"
 	"net"
 	"strconv"
 	"strings"
@@ -174,10 +175,13 @@ func (s *redisServer) execute(w *bufio.Writer, args [][]byte) error {
 	s.metrics.IncCommand(cmd)
 	switch cmd {
 	case "PING":
-		if len(args) > 1 && len(args[1]) > 0 {
+		switch len(args) {
+		case 1:
+			return writeSimpleString(w, "PONG")
+		case 2:
 			return writeBulk(w, args[1])
 		}
-		return writeSimpleString(w, "PONG")
+		return s.respondError(w, "wrong number of arguments for 'PING'")
 	case "ECHO":
 		if len(args) != 2 {
 			return s.respondError(w, "wrong number of arguments for 'ECHO'")
@@ -234,6 +238,10 @@ func (s *redisServer) execute(w *bufio.Writer, args [][]byte) error {
 		delta, err := strconv.ParseInt(string(args[2]), 10, 64)
 		if err != nil {
 			return s.respondError(w, errNotIntegerMsg)
+		}
+		if delta == math.MinInt64 {
+			// -delta is not representable.
+			return s.respondError(w, errOverflowMsg)
 		}
 		return s.execIncrBy(w, args[1], -delta)
 	case "EXISTS":
@@ -318,9 +326,13 @@ func (s *redisServer) execSet(w *bufio.Writer, args [][]byte) error {
 			case "EXAT":
 				expireAt = uint64(num)
 			case "PXAT":
+				// Deadlines are kept in whole seconds; round up so that a valid
+				// sub-second timestamp does not collapse to "no expiry".
 				sec := num / 1000
-				nsec := (num % 1000) * int64(time.Millisecond)
-				expireAt = uint64(time.Unix(sec, nsec).Unix())
+				if num%1000 != 0 {
+					sec++
+				}
+				expireAt = uint64(sec)
 			}
 			if expireAt == 0 {
 				return s.respondError(w, "invalid expire time in set")
